@@ -54,6 +54,9 @@ type Outcome struct {
 	Panic bool
 	Msg   string
 	Pos   string
+	// final values of the function's named locals at this return (for final(x) in ensures)
+	Locals     map[string]Val
+	LocalsAddr map[string]bool
 }
 
 // Exec is one verification context (one SMT declaration context).
@@ -114,6 +117,7 @@ type Exec struct {
 	tableArrs  map[string]string
 	UsedTrusted map[string]bool
 	UsedContracts map[string]bool
+	Abstract      map[string]bool // library callees abstracted for the function under verification
 	Inlined    map[string]bool
 	caseType   string
 }
@@ -246,6 +250,10 @@ func (ex *Exec) Run(fn *ssa.Function, st *State, args []Val, free []Val) []Outco
 	st.Fr = fr
 	outs := ex.execBlock(st, fn.Blocks[0], nil)
 	for i := range outs {
+		if caller == nil && outs[i].St.Fr != nil && outs[i].St.Fr.Fn == fn {
+			outs[i].Locals = outs[i].St.Fr.Names
+			outs[i].LocalsAddr = outs[i].St.Fr.Addr
+		}
 		outs[i].St.Fr = caller
 		outs[i].St.Depth--
 	}
@@ -611,6 +619,20 @@ func (ex *Exec) step(st *State, in ssa.Instruction) {
 			np := x
 			np.Path = append(append([]Step(nil), x.Path...), Step{IsIdx: true, Idx: idx})
 			env[in] = np
+		case Opaque:
+			// element of an unmodelled slice: an arbitrary value of the element type (reads
+			// of such a slice are never related to one another)
+			sl, isSl := x.Typ.Underlying().(*types.Slice)
+			if !isSl || x.ID == "" {
+				outside("IndexAddr on %T", x)
+			}
+			f := ex.Ctx.Declare("opaquelen", []string{"Ref"}, "Int")
+			g := smt.And(smt.Le("0", idx), smt.Lt(idx, smt.App(f, x.ID)))
+			ex.AddObl(st, "safety", fmt.Sprintf("safe/index@%s", ex.pos(in.Pos())), ex.pos(in.Pos()), g)
+			st.Assume(g)
+			o := ex.newObj(sl.Elem(), "opaque_elem")
+			st.Mem[o] = ex.Fresh(st, sl.Elem(), "opaque_elem")
+			env[in] = Ptr{Obj: o, Root: sl.Elem()}
 		default:
 			outside("IndexAddr on %T", x)
 		}
@@ -1189,7 +1211,8 @@ type MapIter struct {
 	M     Map
 	Keys  string // (Array Int K): arbitrary duplicate-free enumeration of the domain
 	N     string
-	Pos   string // index of the next key
+	Pos   string // ghost key holding the index of the next key
+	Dom   string // domain of the map when the range started
 }
 
 func (ex *Exec) rangeStart(st *State, in *ssa.Range) Val {
@@ -1199,7 +1222,7 @@ func (ex *Exec) rangeStart(st *State, in *ssa.Range) Val {
 		outside("range over %T (only maps reach Range)", x)
 	}
 	if m.Obj == nil {
-		return MapIter{M: m, Keys: "", N: "0", Pos: "0"}
+		return MapIter{M: m, Keys: "", N: "0", Pos: ""}
 	}
 	ks := mustSort(m.K)
 	keys := ex.Ctx.Fresh("rangekeys", "(Array Int "+ks+")")
@@ -1215,7 +1238,12 @@ func (ex *Exec) rangeStart(st *State, in *ssa.Range) Val {
 	st.Assume(smt.Forall([][2]string{{i, "Int"}, {j, "Int"}}, smt.Imp(smt.And(smt.Le("0", i), smt.Lt(i, j), smt.Lt(j, n)), smt.Neq(smt.Sel(keys, i), smt.Sel(keys, j))), smt.Sel(keys, i)+" "+smt.Sel(keys, j)))
 	// every key of the domain is enumerated
 	st.Assume(smt.Forall([][2]string{{k, ks}}, smt.Imp(smt.Sel(mc.Dom, k), smt.And(smt.Le("0", smt.Sel(idxOf, k)), smt.Lt(smt.Sel(idxOf, k), n), smt.Eq(smt.Sel(keys, smt.Sel(idxOf, k)), k))), smt.Sel(mc.Dom, k)))
-	return MapIter{M: m, Keys: keys, N: n, Pos: "0"}
+	pk := "rangepos:" + keys
+	ex.mu.Lock()
+	ex.GhostSort[pk] = "Int"
+	ex.mu.Unlock()
+	st.Ghost[pk] = "0"
+	return MapIter{M: m, Keys: keys, N: n, Pos: pk, Dom: mc.Dom}
 }
 
 func (ex *Exec) rangeNext(st *State, in *ssa.Next) Val {
@@ -1226,9 +1254,24 @@ func (ex *Exec) rangeNext(st *State, in *ssa.Next) Val {
 	if !ok {
 		outside("Next on %T", ex.value(st, in.Iter))
 	}
-	_ = it
-	outside("range over map inside a function body is handled by the map-range generator only")
-	return nil
+	tup := in.Type().(*types.Tuple)
+	if it.Pos == "" {
+		// nil map: no iteration
+		return Tuple{Bool{smt.False}, ex.Zero(st, tup.At(1).Type()), ex.Zero(st, tup.At(2).Type())}
+	}
+	mc := st.Mem[it.M.Obj].(MapContent)
+	if mc.Dom != it.Dom {
+		outside("the map is modified while it is ranged over")
+	}
+	// the keys come in an arbitrary duplicate-free order that covers the domain (the
+	// enumeration fixed by rangeStart): a proof holds for every iteration order
+	p := st.Ghost[it.Pos]
+	more := smt.Lt(p, it.N)
+	k := smt.Sel(it.Keys, p)
+	st.Ghost[it.Pos] = smt.Ite(more, smt.Add(p, "1"), p)
+	kv := wrapTerm(it.M.K, k)
+	vv := wrapTerm(it.M.V, smt.Sel(mc.Val, k))
+	return Tuple{Bool{more}, kv, vv}
 }
 
 // ---------------------------------------------------------------- tables
